@@ -16,7 +16,8 @@
    binding only unchanged and only with scheme http/https, and blanks the
    location of any other binding — for Location and ResponseLocation of both
    endpoint element types. *)
-From Saml Require Import Base UrlEnc HtmlEsc HtmlEscProofs Metadata MetadataProofs.
+From Saml Require Import IdPModel.
+From Saml Require Import Base UrlEnc HtmlEsc HtmlEscProofs Metadata MetadataProofs OutboundIdPForm OutboundIdPFormProofs.
 
 Theorem attr_escape_inert :
   forall s,
@@ -155,3 +156,19 @@ Theorem C14_location_monitor_sound :
   (standard (lc_binding c) = false -> lc_out c = EmptyString).
 Proof. exact loccase_spec_sound. Qed.
 Print Assumptions C14_location_monitor_sound.
+
+(* through the real flow (ServeSSO -> Validate/getACSEndpoint -> PostBinding ->
+   WriteResponse): whatever AssertionConsumerServiceURL / Index and relay state
+   the (unauthenticated) request carries, an emitted response form is the one
+   rendered with the location of an endpoint REGISTERED with the HTTP-POST
+   binding as its action, with exactly the intended structure *)
+Theorem C14_idp_action_registered :
+  forall acs url idx msg relay html,
+  idp_flow_form acs url idx msg relay = (0, html) ->
+  exists loc i d,
+    In (IdPModel.post_binding, loc, i, d) acs /\
+    let data := {| fd_url := loc; fd_msg := msg; fd_relay := relay; fd_toast := EmptyString |} in
+    html = render_form FIdpResponse data /\
+    tokenize_form html = Some (intended_of FIdpResponse data).
+Proof. exact idp_flow_action_registered. Qed.
+Print Assumptions C14_idp_action_registered.
